@@ -82,8 +82,17 @@ inline uint64_t mix(uint64_t h, uint64_t v) { return fnv(&v, sizeof v, h); }
 
 inline std::string fmt(const char *f, ...) {
     char buf[4096];
-    va_list ap; va_start(ap, f); vsnprintf(buf, sizeof buf, f, ap); va_end(ap);
-    return buf;
+    va_list ap; va_start(ap, f);
+    va_list ap2; va_copy(ap2, ap);
+    int n = vsnprintf(buf, sizeof buf, f, ap);
+    va_end(ap);
+    if (n < 0) { va_end(ap2); return std::string(); }
+    if ((size_t)n < sizeof buf) { va_end(ap2); return std::string(buf, (size_t)n); }
+    std::string big((size_t)n + 1, '\0');           // long serialisations (large payloads) must not be cut: replay files are parsed back
+    vsnprintf(&big[0], big.size(), f, ap2);
+    va_end(ap2);
+    big.resize((size_t)n);
+    return big;
 }
 inline std::string hex(const void *p, size_t n) {
     static const char *d = "0123456789abcdef";
